@@ -9,6 +9,7 @@ from symtorch import tensor as T
 from symtorch.tdict import TensorDict
 
 from . import envs as EV
+from . import envs_mdcpdp as _MD  # noqa: F401  (registers MDCPDP)
 from . import envs_sel as _SEL  # noqa: F401  (registers the selection environments)
 
 TOL = 2e-5
